@@ -316,9 +316,42 @@ func c03(c *core.Ctx) {
 		c.EndRule()
 	}
 
+	// ---------------------------------------------------------------- R7
+	if c.Rule("R7", "what the handler sets is taken at the call: no SetHeader/SendHeader/SetTrailer/TrySetTrailer implementation keeps the handler's metadata.MD (or one of its value slices) by reference; it only reads it (range, append of the elements, converters, copies) or forwards it to the wrapped stream", 10) {
+		n := 0
+		for _, fn := range p.LibFuncs("") {
+			if fn.Parent() != nil || fn.Signature.Recv() == nil {
+				continue
+			}
+			switch fn.Name() {
+			case "SetHeader", "SendHeader", "SetTrailer", "TrySetTrailer":
+			default:
+				continue
+			}
+			for _, par := range fn.Params[1:] {
+				if core.TypeStr(par.Type()) != metadataPkg+".MD" {
+					continue
+				}
+				n++
+				bad := mdRetained(fn, par, 0)
+				c.Check(bad == "", core.FuncName(fn)+":md-not-retained", fn.Pos(), "the metadata parameter is only read or forwarded", "the handler's metadata "+bad+": a handler that reuses or edits the map after the call changes (or loses) what it had set, and the two sides share a map")
+			}
+		}
+		if n == 0 {
+			c.Missing("server-side metadata setters")
+		}
+		c.EndRule()
+	}
+
 	// ---------------------------------------------------------------- R4
 	if c.Rule("R4", "binary metadata uses one codec on every wire path: each MD↔wire converter base64-codes the values of keys with the -bin suffix, like its counterpart", 4) {
 		c03BinCodec(c)
+		c.EndRule()
+	}
+
+	// ---------------------------------------------------------------- R8
+	if c.Rule("R8", "values cross the wire verbatim: in every MD↔wire converter each value put into the output is an element of the input, unchanged or passed through the base64 coder only (no splitting, trimming, case folding, concatenation or constant)", 4) {
+		c03Verbatim(c)
 		c.EndRule()
 	}
 
@@ -740,6 +773,43 @@ func c03CallOptions(c *core.Ctx) {
 			if !reads {
 				continue
 			}
+			// path-level: from every such read, the fan-out is passed on all paths to a return
+			core.Instrs(fn, func(in ssa.Instruction) {
+				if !isFrameFieldRead(fn, in, nd.field) {
+					return
+				}
+				// a read that only feeds nil/len tests obtains nothing
+				onlyTests := true
+				for _, r := range core.Refs(in.(ssa.Value)) {
+					switch x := r.(type) {
+					case *ssa.BinOp, *ssa.DebugRef:
+					case *ssa.Call:
+						if b, isB := x.Call.Value.(*ssa.Builtin); !isB || b.Name() != "len" {
+							onlyTests = false
+						}
+					default:
+						onlyTests = false
+					}
+				}
+				if onlyTests {
+					return
+				}
+				isFan := func(x ssa.Instruction) bool {
+					cc := core.CallOf(x)
+					if cc == nil {
+						return false
+					}
+					ci := core.InfoOf(cc)
+					return ci.Name == nd.call && ci.Recv == "CallOptions"
+				}
+				okPath := true
+				for _, r := range core.Returns(fn) {
+					if core.Reachable(core.After(in), r) && !core.MustPass(core.After(in), r, isFan) {
+						okPath = false
+					}
+				}
+				c.Check(okPath, core.FuncName(fn)+":"+nd.call+":on-every-path", in.Pos(), "after reading the "+nd.field+" of a received frame every path to a return passes "+nd.call, "the "+nd.field+" of a received frame are read, but a path to a return does not pass "+nd.call+": on that path Header()/Trailer() may see them while the grpc.Header/grpc.Trailer call options stay empty")
+			})
 			// skip pure predicates (len(...) tests in the server goroutine use literals, not loads)
 			has := len(core.CallsIn(fn, func(_ *ssa.Call, ci core.CallInfo) bool { return ci.Name == nd.call && ci.Recv == "CallOptions" })) > 0
 			c.Check(has, core.FuncName(fn)+":"+nd.call, pos, "received "+nd.field+" are handed to the call options", "a client path reads the "+nd.field+" of a received frame but never calls "+nd.call+": grpc.Header/grpc.Trailer call options stay empty on this path")
@@ -943,4 +1013,378 @@ func keysOfI(m map[string]int64) []string {
 	}
 	sort.Strings(out)
 	return out
+}
+
+// isFrameFieldRead: in reads field `field` of a received frame value (not in
+// the frame's own methods).
+func isFrameFieldRead(fn *ssa.Function, in ssa.Instruction, field string) bool {
+	v, ok := in.(ssa.Value)
+	if !ok {
+		return false
+	}
+	if fn.Signature.Recv() != nil && core.NamedOf(fn.Signature.Recv().Type()) == "frame" {
+		return false
+	}
+	var base ssa.Value
+	var f string
+	var isF bool
+	if fl, isFld := v.(*ssa.Field); isFld {
+		if stT, ok := fl.X.Type().Underlying().(*types.Struct); ok {
+			base, f, isF = fl.X, stT.Field(fl.Field).Name(), true
+		}
+	} else if u, isU := v.(*ssa.UnOp); isU && u.Op == token.MUL {
+		base, f, isF = core.FieldOf(u)
+	}
+	return isF && f == field && core.NamedOf(base.Type()) == "frame"
+}
+
+// mdRetained reports how the metadata parameter (or a value slice ranged out of
+// it) is kept by reference ("" if it is only read, copied or forwarded).
+func mdRetained(fn *ssa.Function, par ssa.Value, depth int) string {
+	bad := ""
+	seen := map[ssa.Value]bool{}
+	var visit func(v ssa.Value, isSlice bool)
+	visit = func(v ssa.Value, isSlice bool) {
+		if seen[v] || bad != "" {
+			return
+		}
+		seen[v] = true
+		for _, r := range core.Refs(v) {
+			if bad != "" {
+				return
+			}
+			switch x := r.(type) {
+			case *ssa.DebugRef, *ssa.BinOp, *ssa.Lookup, *ssa.Index:
+			case *ssa.Phi, *ssa.ChangeType:
+				visit(r.(ssa.Value), isSlice)
+			case *ssa.Range:
+				// for k, v := range md: the value slices
+				for _, nx := range core.Refs(x) {
+					if n, ok := nx.(*ssa.Next); ok {
+						for _, ex := range core.Refs(n) {
+							if e, ok := ex.(*ssa.Extract); ok && e.Index == 2 {
+								visit(e, true)
+							}
+						}
+					}
+				}
+			case *ssa.Store:
+				if x.Val != v {
+					continue
+				}
+				if al, ok := x.Addr.(*ssa.Alloc); ok && !capturedCell(al) {
+					for _, ld := range core.LoadsOf(al) {
+						visit(ld, isSlice)
+					}
+					continue
+				}
+				if ia, ok := x.Addr.(*ssa.IndexAddr); ok {
+					if arr, ok := ia.X.(*ssa.Alloc); ok && !capturedCell(arr) {
+						// packed for a variadic call: fine if the pack only goes to copying readers (metadata.Join)
+						onlyReaders := true
+						for _, ar := range core.Refs(arr) {
+							sl, isSl := ar.(*ssa.Slice)
+							if !isSl {
+								continue
+							}
+							for _, su := range core.Refs(sl) {
+								call, isCall := su.(*ssa.Call)
+								if !isCall {
+									onlyReaders = false
+									continue
+								}
+								ci := core.InfoOf(&call.Call)
+								if _, isB := call.Call.Value.(*ssa.Builtin); isB || !(ci.Pkg == metadataPkg) {
+									onlyReaders = false
+								}
+							}
+						}
+						if onlyReaders {
+							continue
+						}
+					}
+				}
+				bad = "is stored (field, slice element or captured variable) at " + posStr(fn, x)
+			case *ssa.MapUpdate:
+				if x.Value == v {
+					bad = "value is stored into a map by reference at " + posStr(fn, x)
+				}
+			case *ssa.Send:
+				bad = "is sent on a channel"
+			case *ssa.Return:
+				bad = "is returned"
+			case *ssa.MakeClosure:
+				bad = "is captured by a function literal"
+			case *ssa.MakeInterface:
+				bad = "is boxed into an interface at " + posStr(fn, x)
+			case *ssa.Go, *ssa.Defer:
+				bad = "is passed to a go/defer call"
+			case *ssa.Slice:
+				visit(x, true)
+			case *ssa.IndexAddr:
+				// element reads only (strings are immutable)
+				for _, rr := range core.Refs(x) {
+					switch y := rr.(type) {
+					case *ssa.UnOp, *ssa.DebugRef:
+					case *ssa.Store:
+						if y.Addr == ssa.Value(x) {
+							bad = "value slice is written through at " + posStr(fn, y)
+						}
+					default:
+						bad = fmt.Sprintf("has an element address used by %T", rr)
+					}
+				}
+			case *ssa.Call:
+				ci := core.InfoOf(&x.Call)
+				if b, ok := x.Call.Value.(*ssa.Builtin); ok {
+					switch b.Name() {
+					case "len", "cap", "copy":
+					case "append":
+						// append(dst, v...) copies v's elements; append(v, ...) would alias v
+						if len(x.Call.Args) > 0 && x.Call.Args[0] == v {
+							bad = "value slice is used as the base of an append (aliases the handler's backing array)"
+						}
+					default:
+						bad = "is passed to builtin " + b.Name()
+					}
+					continue
+				}
+				switch {
+				case x.Call.IsInvoke():
+					// forwarded to the wrapped stream's own setter
+				case ci.Static != nil && ci.Static.Blocks != nil && strings.HasPrefix(ci.Pkg, core.ModulePath):
+					if depth >= 4 {
+						bad = "is passed down more than 4 helper levels"
+						continue
+					}
+					for i, a := range x.Call.Args {
+						if a == v && i < len(ci.Static.Params) {
+							if b := mdRetained(ci.Static, ci.Static.Params[i], depth+1); b != "" {
+								bad = "is passed to " + core.FuncName(ci.Static) + ", where it " + b
+							}
+						}
+					}
+				case ci.Pkg == metadataPkg || strings.HasPrefix(ci.Full(), metadataPkg):
+					// Join, Copy, Get, Len: readers that copy
+				default:
+					bad = "is passed to " + ci.Full()
+				}
+			default:
+				bad = fmt.Sprintf("is used by %T", r)
+			}
+		}
+	}
+	visit(par, false)
+	return bad
+}
+
+func posStr(fn *ssa.Function, in ssa.Instruction) string {
+	if fn.Prog == nil {
+		return "?"
+	}
+	ps := fn.Prog.Fset.Position(in.Pos())
+	return fmt.Sprintf("line %d", ps.Line)
+}
+
+func capturedCell(al *ssa.Alloc) bool {
+	for _, r := range core.Refs(al) {
+		if _, ok := r.(*ssa.MakeClosure); ok {
+			return true
+		}
+	}
+	return false
+}
+
+// mdConverters: top-level httpgrpc functions converting between metadata.MD
+// and a wire form (http.Header / the trailer proto map).
+func mdConverters(p *core.Prog) []*ssa.Function {
+	var out []*ssa.Function
+	md := metadataPkg + ".MD"
+	isWire := func(s string) bool {
+		return s == "net/http.Header" || strings.HasPrefix(s, "map[string]*") && strings.Contains(s, "TrailerValues")
+	}
+	for _, fn := range p.LibFuncs("httpgrpc") {
+		if fn.Parent() != nil || fn.Signature.Recv() != nil {
+			continue
+		}
+		hasMD, hasWire := false, false
+		for _, pp := range fn.Params {
+			t := core.TypeStr(pp.Type())
+			hasMD = hasMD || t == md
+			hasWire = hasWire || isWire(t)
+		}
+		for i := 0; i < fn.Signature.Results().Len(); i++ {
+			t := core.TypeStr(fn.Signature.Results().At(i).Type())
+			hasMD = hasMD || t == md
+			hasWire = hasWire || isWire(t)
+		}
+		if hasMD && hasWire {
+			out = append(out, fn)
+		}
+	}
+	return out
+}
+
+func isStringish(t types.Type) bool {
+	if b, ok := t.Underlying().(*types.Basic); ok && b.Kind() == types.String {
+		return true
+	}
+	if sl, ok := t.Underlying().(*types.Slice); ok {
+		return isStringish(sl.Elem())
+	}
+	return false
+}
+
+func c03Verbatim(c *core.Ctx) {
+	p := c.P
+	convs := mdConverters(p)
+	if len(convs) < 4 {
+		c.Fail("httpgrpc:converters", token.NoPos, "ANCHOR-MISSING: expected 4 MD↔wire converters, found %d", len(convs))
+	}
+	for _, fn := range convs {
+		key := core.FuncName(fn) + ":values-verbatim"
+		var sinks []ssa.Value
+		var sinkAt []ssa.Instruction
+		add := func(v ssa.Value, at ssa.Instruction) {
+			if v != nil && isStringish(v.Type()) {
+				sinks = append(sinks, v)
+				sinkAt = append(sinkAt, at)
+			}
+		}
+		core.Instrs(fn, func(in ssa.Instruction) {
+			switch x := in.(type) {
+			case *ssa.MapUpdate:
+				add(x.Value, in)
+			case *ssa.Call:
+				if b, ok := x.Call.Value.(*ssa.Builtin); ok {
+					if b.Name() == "append" && len(x.Call.Args) == 2 {
+						if els, ok := core.VariadicArgs(x.Call.Args[1]); ok {
+							for _, e := range els {
+								add(e, in)
+							}
+						} else {
+							add(x.Call.Args[1], in)
+						}
+					}
+					return
+				}
+				ci := core.InfoOf(&x.Call)
+				if ci.Recv == "Header" && (ci.Name == "Add" || ci.Name == "Set") && len(x.Call.Args) >= 2 {
+					add(x.Call.Args[len(x.Call.Args)-1], in)
+				}
+			case *ssa.Store:
+				if _, f, ok := core.FieldOf(x.Addr); ok && f == "Values" {
+					add(x.Val, in)
+				}
+			}
+		})
+		if len(sinks) == 0 {
+			c.Fail(key, fn.Pos(), "ANCHOR-MISSING: converter has no recognisable output (append / map update / Header.Add)")
+			continue
+		}
+		bad, undec := "", ""
+		seen := map[ssa.Value]bool{}
+		var trace func(v ssa.Value)
+		trace = func(v ssa.Value) {
+			if v == nil || seen[v] || bad != "" {
+				return
+			}
+			seen[v] = true
+			for _, o := range core.Origins(v) {
+				if o != v && seen[o] {
+					continue
+				}
+				seen[o] = true
+				switch x := o.(type) {
+				case *ssa.Parameter, *ssa.Lookup, *ssa.Alloc, *ssa.FreeVar, *ssa.MakeMap:
+				case *ssa.Const:
+					if !x.IsNil() {
+						bad = "a constant is put into the output in place of the input's value"
+					}
+				case *ssa.Phi:
+					for _, e := range x.Edges {
+						trace(e)
+					}
+				case *ssa.Convert:
+					trace(x.X)
+				case *ssa.ChangeType:
+					trace(x.X)
+				case *ssa.Slice:
+					if isStringish(x.X.Type()) && x.Low == nil && x.High == nil {
+						trace(x.X)
+					} else if _, isStr := x.X.Type().Underlying().(*types.Basic); isStr || x.Low != nil || x.High != nil {
+						bad = "a sub-string / sub-slice of the input's value is put into the output"
+					} else {
+						trace(x.X)
+					}
+				case *ssa.Extract:
+					switch t := x.Tuple.(type) {
+					case *ssa.Next:
+						// range element
+					case *ssa.Call:
+						ci := core.InfoOf(&t.Call)
+						if ci.Pkg == "encoding/base64" && (ci.Name == "DecodeString" || ci.Name == "EncodeToString") {
+							trace(t.Call.Args[len(t.Call.Args)-1])
+						} else {
+							bad = "the value passes through " + ci.Full() + " on its way to the output"
+						}
+					case *ssa.TypeAssert:
+						trace(t.X)
+					default:
+						undec = fmt.Sprintf("value extracted from %T", x.Tuple)
+					}
+				case *ssa.Call:
+					if b, ok := x.Call.Value.(*ssa.Builtin); ok && b.Name() == "append" {
+						for _, a := range x.Call.Args {
+							if els, ok := core.VariadicArgs(a); ok && len(els) > 0 {
+								for _, e := range els {
+									trace(e)
+								}
+							} else {
+								trace(a)
+							}
+						}
+						continue
+					}
+					ci := core.InfoOf(&x.Call)
+					if ci.Pkg == "encoding/base64" && (ci.Name == "DecodeString" || ci.Name == "EncodeToString") {
+						trace(x.Call.Args[len(x.Call.Args)-1])
+					} else {
+						bad = "the value passes through " + ci.Full() + " on its way to the output"
+					}
+				case *ssa.UnOp:
+					if x.Op != token.MUL {
+						undec = "unary operation on a value"
+						continue
+					}
+					switch a := x.X.(type) {
+					case *ssa.IndexAddr:
+						trace(a.X) // element of a container: where does the container come from
+					case *ssa.FieldAddr:
+						// field of an input object / local accumulator
+					default:
+						// a cell whose stores Origins could not resolve (captured): not expected here
+						undec = fmt.Sprintf("load through %T", x.X)
+					}
+				case *ssa.BinOp:
+					bad = "the value is concatenated/combined (" + x.Op.String() + ") before it is put into the output"
+				case *ssa.Index:
+					bad = "a single byte of the value is put into the output"
+				default:
+					undec = fmt.Sprintf("%T", o)
+				}
+			}
+		}
+		for _, sv := range sinks {
+			trace(sv)
+		}
+		switch {
+		case bad != "":
+			c.Fail(key, fn.Pos(), "%s: what one side set is not what the other side sees (values containing the separator, spaces or upper-case letters are altered or multiplied)", bad)
+		case undec != "":
+			c.Undecided(key, fn.Pos(), "cannot trace an output value back to the input (%s)", undec)
+		default:
+			c.Ok(key, fn.Pos(), "%d output value(s): each is an input element, unchanged or base64-coded", len(sinks))
+		}
+	}
 }
